@@ -8,10 +8,12 @@ complete (any edited .c or .h is recompiled).  An flock serialises
 concurrent checks.
 
 variants:
-  asan   gcc -O1 -g -fsanitize=address,undefined (recoverable; runtime options
-         decide halt/continue)
+  asan   clang -O1 -g -fsanitize=address,undefined (recoverable; runtime
+         options decide halt/continue) -- the primary monitor build
+  gasan  the same with gcc 12 (+ bounds-strict): second opinion in C03
   plain  gcc -O1 -g                     (valgrind memcheck, timing)
   fi     asan + forced include of harness/failalloc.h  (allocation faults)
+  cov    gcc -O0 --coverage             (tools/coverage.sh)
 """
 import fcntl
 import hashlib
@@ -26,15 +28,25 @@ GUARD = "LIBVNA_VERIF"
 
 COMMON = ["-std=gnu11", "-g", "-fno-omit-frame-pointer", "-D_GNU_SOURCE",
           "-DHAVE_CONFIG_H", "-D" + GUARD + "=1", "-Wno-error", "-w"]
+# Primary sanitizer build: clang 14.  Its ASan instruments loads and stores of
+# _Complex values, which gcc 12 does not (an over-read of a double complex
+# array -- most of this library's data -- is invisible to the gcc build).
+# vla-bound stays on; zero-length VLAs are filtered in runner.parse_reports.
 SAN = ["-O1", "-fsanitize=address,undefined", "-fsanitize-recover=all",
-       "-fno-sanitize=float-divide-by-zero", "-fsanitize=float-cast-overflow",
-       "-fsanitize=bounds-strict", "-fno-sanitize=vla-bound", "-fno-sanitize=nonnull-attribute"]
+       "-fno-sanitize=float-divide-by-zero,nonnull-attribute,function",
+       "-fsanitize=float-cast-overflow"]
+# Second opinion: gcc 12 (bounds-strict; different stack layout and inlining)
+GSAN = ["-O1", "-fsanitize=address,undefined", "-fsanitize-recover=all",
+        "-fno-sanitize=float-divide-by-zero", "-fsanitize=float-cast-overflow",
+        "-fsanitize=bounds-strict", "-fno-sanitize=nonnull-attribute"]
 VARIANTS = {
     "asan": SAN,
+    "gasan": GSAN,
     "plain": ["-O1"],
     "fi": SAN + ["-DVERIF_FAILALLOC=1"],
     "cov": ["-O0", "--coverage"],
 }
+COMPILER = {"asan": "clang", "fi": "clang"}
 
 
 def lib_sources(repo):
@@ -113,6 +125,10 @@ def build(variant, repo=None, quiet=True):
     repo = repo or REPO
     if variant not in VARIANTS:
         raise SystemExit("unknown variant " + variant)
+    if os.environ.get("VERIF_ASAN_GCC") and variant == "asan":
+        variant = "gasan"      # occasional sweep with gcc's ASan instead
+    if os.environ.get("VERIF_COVERAGE") and variant in ("asan", "plain"):
+        variant = "cov"        # tools/coverage.sh: line coverage of the checks
     bdir = build_dir(variant, repo)
     os.makedirs(bdir, exist_ok=True)
     lock = open(os.path.join(bdir, ".lock"), "w")
@@ -137,7 +153,7 @@ def build(variant, repo=None, quiet=True):
         peek = os.path.join(hs, "peek.c")
         mk = []
         objs = []
-        mk.append("CC=gcc")
+        mk.append("CC=" + COMPILER.get(variant, "gcc"))
         mk.append("all: vnadrv")
         for s in srcs:
             o = "lib_" + s[:-2] + ".o"
